@@ -38,7 +38,7 @@ EXTRA_MODULES = {
     "C07": ["Tie.Plan", "Tie.Subband", "Kernels.InvertFreq", "Kernels.MaskChannels", "Kernels.Subband",
             "Kernels.RemoveZerodm", "Kernels.Downsample2d"],
     "C08": ["Tie.HeaderUpdates"],
-    "C09": ["Tie.Dedisperse", "Tie.Subband", "Kernels.Dedisperse", "Kernels.Subband", "Kernels.RollBlock", "Kernels.DmtBlock"],
+    "C09": ["Tie.Dedisperse", "Tie.Subband", "Kernels.Dedisperse", "Kernels.Subband", "Kernels.RollBlock", "Kernels.DmtBlock", "Tie.DmLaw"],
     "C10": ["Tie.Moments"],
     "C11": ["Tie.Plan", "Tie.Fold", "Kernels.Fold"],
     "C14": ["Kernels.Downsample1d", "Kernels.Downsample2d"],
